@@ -1,8 +1,9 @@
 #!/bin/bash
-# tools/confirm_seed.sh <worktree> <outdir> <crate>   : independent confirmation of a seeded change in its scratch worktree:
+# tools/confirm_seed.sh <worktree> <outdir> <crate> <crate dir> [features]  : independent confirmation of a seeded change in its scratch worktree:
 #  (1) patch.diff applies to a clean checkout, (2) full existing suite passes with it, (3) demo fails with it, (4) demo passes without it.
 set -u
-wt=$1; out=$2; crate=${3:-rustpython-parser}; tdir=${4:-parser}
+wt=$1; out=$2; crate=${3:-rustpython-parser}; tdir=${4:-parser}; feat=${5:-}
+fflag=""; [ -n "$feat" ] && fflag="--features $feat"
 cd "$wt" || exit 2
 git checkout -q -- . ; git clean -fdq -e target
 git apply --check "$out/patch.diff" || { echo "CONFIRM: patch does not apply"; exit 1; }
@@ -10,10 +11,10 @@ git apply "$out/patch.diff"
 suite=$(cargo test --workspace --offline 2>&1 | grep -E "^test result|FAILED|^error" | awk '/test result/{p+=$4; f+=$6} /FAILED|^error/{bad=1} END {print "passed=" p " failed=" f " bad=" bad+0}')
 echo "CONFIRM suite-with-change: $suite"
 mkdir -p $tdir/tests; cp "$out/demo.rs" $tdir/tests/seed_demo.rs
-with=$(cargo test --offline -p $crate --test seed_demo 2>&1 | grep -E "^test result|^error" | head -2 | tr '\n' ' ')
+with=$(cargo test --offline -p $crate $fflag --test seed_demo 2>&1 | grep -E "^test result|^error" | head -2 | tr '\n' ' ')
 echo "CONFIRM demo-with-change: $with"
 git apply -R "$out/patch.diff"
-without=$(cargo test --offline -p $crate --test seed_demo 2>&1 | grep -E "^test result|^error" | head -2 | tr '\n' ' ')
+without=$(cargo test --offline -p $crate $fflag --test seed_demo 2>&1 | grep -E "^test result|^error" | head -2 | tr '\n' ' ')
 echo "CONFIRM demo-without-change: $without"
 rm -f $tdir/tests/seed_demo.rs
 git apply "$out/patch.diff"
